@@ -1,9 +1,162 @@
 import KG.Base.Json
-/-! Driver entry points for property C05 (filled in by the C05 model). -/
-namespace KG.Driver.C05
-open Lean
+import KG.Gen.C05
+import KG.Spec.LocalLimiter
+/-! Driver entry points for property C05.
 
-/-- `handle method args`: `none` when the method is unknown. -/
-def handle (_m : String) (_a : Json) : Option (Except String Json) := none
+* `C05.hist {ops, outs}`: run a reconfiguration/request history through the sequential model
+  (`KG.Model.LocalLimiter`), return the model's answers, the limiter description seen by each arriving
+  request, and the judge (`KG.Spec.LocalLimiter.judge`) on the model's answers and on the answers `outs`
+  observed on the real code.
+* `C05.sched {max, events}`: run a schedule through the small-step model of the lock-free counter
+  (`KG.Model.MaxInflight`), return the shared state and the stepping thread's state after every event.
+* `C05.serve {choices, granted}`: run the abstracted `dispatcher.ServeHTTP` (regenerated program) on a scenario.
+-/
+namespace KG.Driver.C05
+open Lean KG KG.Model.LocalLimiter KG.Spec.LocalLimiter
+
+def optInt (j : Json) (k : String) : Except String (Option Int) :=
+  match J.optObj j k with
+  | none => pure none
+  | some v => do pure (some (← v.getInt?))
+
+def optPair (j : Json) (k : String) : Except String (Option (Int × Int)) :=
+  match J.optObj j k with
+  | none => pure none
+  | some v => do
+    let a ← v.getArr?
+    match a.toList with
+    | [x, y] => pure (some (← x.getInt?, ← y.getInt?))
+    | _ => throw s!"{k}: expected [qps, burst]"
+
+def decodeSchema (j : Json) : Except String Schema := do
+  pure { name := ← J.getHex j "name", strategy := ← J.getHex j "strategy", exempt := ← J.getBool j "exempt",
+         mi := ← optInt j "mi", tb := ← optPair j "tb", gmi := ← optInt j "gmi", gtb := ← optPair j "gtb" }
+
+def decodeOp (j : Json) : Except String Op := do
+  match ← J.getStr j "op" with
+  | "sync" => do
+    let ss ← (← J.getArr j "schemas").toList.mapM decodeSchema
+    pure (.sync (← J.getHex j "c") ss)
+  | "acq" => pure (.acquire (← J.getHex j "c") (← J.getHex j "n") ((J.getBool j "tb").toOption.getD true))
+  | "rel" => pure (.release (← J.getNat j "i"))
+  | o => throw s!"unknown op {o}"
+
+def decodeOut (j : Json) : Except String Out := do
+  match ← J.getStr j "k" with
+  | "synced" => pure .synced
+  | "acq" => pure (.acquired (← J.getBool j "ok"))
+  | "rel" => pure (.released (← J.getBool j "did"))
+  | "panic" => pure (.panic "")
+  | o => throw s!"unknown out {o}"
+
+def descKind : Option Kind → String
+  | none => "default"
+  | some (.counter c) => s!"mi:{c.max}"
+  | some .infinity => "exempt"
+  | some (.bucket q b) => s!"tb:{q}:{b}"
+
+/-- description of the limiter `GetOrDefault(c, n)` hands out (its `String()` in the code) -/
+def descOf (w : World) (c n : Str) : String :=
+  match getOrDefault w c n with
+  | none => "default"
+  | some none => "nil"
+  | some (some id) => descKind (w.heap id)
+
+def encodeOut (o : Out) (desc : String) : Json :=
+  match o with
+  | .synced => J.obj [("k", "synced")]
+  | .acquired b => J.obj [("k", "acq"), ("ok", J.bool b), ("desc", desc)]
+  | .released d => J.obj [("k", "rel"), ("did", J.bool d)]
+  | .panic m => J.obj [("k", "panic"), ("msg", m)]
+
+def runDesc : World → List Op → List Json
+  | _, [] => []
+  | w, op :: ops =>
+    let r := step w op
+    let d := match op with
+      | .acquire c n _ => descOf w c n
+      | _ => ""
+    if r.2.isPanic then [encodeOut r.2 d] else encodeOut r.2 d :: runDesc r.1 ops
+
+def optIdx : Option Nat → Json
+  | some i => J.nat i
+  | none => J.int (-1)
+
+def doHist (a : Json) : Except String Json := do
+  let ops ← (← J.getArr a "ops").toList.mapM decodeOp
+  let outs ← match J.optObj a "outs" with
+    | none => pure []
+    | some v => do (← v.getArr?).toList.mapM decodeOut
+  let mouts := run World.init ops
+  pure <| J.obj [
+    ("model", Json.arr (runDesc World.init ops).toArray),
+    ("judge_model", optIdx (judge ops mouts)),
+    ("judge_impl", optIdx (judge ops outs))]
+
+open KG.Model.MaxInflight in
+def pcName : PC → String
+  | .idle => "TryAcquire.0"
+  | .acq1 _ => "TryAcquire.1"
+  | .cas _ _ => "TryAcquire.2"
+  | .adding _ => "TryAcquire.3"
+  | .rollback => "TryAcquire.4"
+  | .holding => "Release.0"
+  | .rel1 => "Release.1"
+  | .rel2 => "Release.2"
+
+open KG.Model.MaxInflight in
+def outName : KG.Model.MaxInflight.Out → String
+  | .none => "none"
+  | .admitted => "admitted"
+  | .rejected => "rejected"
+  | .released => "released"
+
+open KG.Model.MaxInflight in
+def decodeEv (j : Json) : Except String Ev :=
+  match J.optObj j "resize" with
+  | some v => do pure (.resize (← v.getNat?))
+  | none => do pure (.step (← J.getNat j "t"))
+
+open KG.Model.MaxInflight in
+def runSched : Sys → List Ev → List Json
+  | _, [] => []
+  | s, e :: es =>
+    let r := KG.Model.MaxInflight.step s e
+    let at_ := match e with
+      | .step t => pcName (r.1.pc t)
+      | .resize _ => ""
+    J.obj [("count", J.int r.1.count), ("max", J.nat r.1.max), ("out", outName r.2), ("at", at_),
+           ("holders", J.nat r.1.holders.length), ("pending", J.nat r.1.pending.length)] :: runSched r.1 es
+
+open KG.Model.MaxInflight in
+def doSched (a : Json) : Except String Json := do
+  let m ← J.getNat a "max"
+  let evs ← (← J.getArr a "events").toList.mapM decodeEv
+  pure <| J.obj [("steps", Json.arr (runSched (init m) evs).toArray)]
+
+def decodeChoice : Json → Except String Choice
+  | .str "go" => pure .go
+  | .str "exit" => pure .exit
+  | .str "panic" => pure .panic
+  | _ => throw "bad choice"
+
+def program : List Stmt := KG.Gen.C05.serveHTTP.map Stmt.ofString
+
+def doServe (a : Json) : Except String Json := do
+  let cs ← (← J.getArr a "choices").toList.mapM decodeChoice
+  let granted ← J.getBool a "granted"
+  let sc : Scenario := { choice := fun i => cs.getD i .go, granted := granted }
+  let tr := serve program sc
+  pure <| J.obj [("acquired", J.nat (countAcq tr)), ("released", J.nat (countRel tr)),
+                 ("tried", J.nat (tr.countP fun e => e matches .tryAcquire _)),
+                 ("program", Json.arr (KG.Gen.C05.serveHTTP.map Json.str).toArray),
+                 ("shapeOk", J.bool (shapeOk program))]
+
+def handle (m : String) (a : Json) : Option (Except String Json) :=
+  match m with
+  | "hist" => some (doHist a)
+  | "sched" => some (doSched a)
+  | "serve" => some (doServe a)
+  | _ => none
 
 end KG.Driver.C05
